@@ -88,7 +88,7 @@ fn one<const D: usize>(id: &str, ps: &gens::PointSet, robust: bool, flips: usize
 
 pub fn run(cfg: &Cfg, rng: &mut Rng, out: &mut Out) {
     let thorough = cfg.tier == "thorough";
-    let n = if thorough { 2000 } else { 240 };
+    let n = if thorough { 2000 } else { 400 };
     for i in 0..n {
         let d = 2 + (i % 4);
         let np = match d { 2 => rng.range(4, 14), 3 => rng.range(5, 12), 4 => rng.range(6, 10), _ => rng.range(7, 9) } as usize;
